@@ -173,6 +173,8 @@ def attribute(it, base, name, fr, node):
         return VBound(base, name)
     if isinstance(base, VSlice):
         return {"start": base.lo, "stop": base.hi, "step": base.step}.get(name) or VNone()
+    if isinstance(base, VOpaque) and base.tag.startswith("userslice:") and name in ("start", "stop", "step"):
+        return VOpaque(f"slicefield:{base.tag.split(':', 1)[1]}:{name}")      # a field of the caller's slice: None or an integer, not known which
     if isinstance(base, VOpaque):
         return VBound(base, name)
     if isinstance(base, VObj):
@@ -376,7 +378,8 @@ def tensor_index(it, base: VTensor, idx, node):
             ax += 1
         elif isinstance(x, VOpaque) and x.tag.startswith("userslice:"):
             nm = x.tag.split(":", 1)[1]
-            cur = net.select_axis(sp, cur, ax, nm, P.atom(f"|{nm}|"))
+            if not userslice_is_full(it.facts, nm):       # slice(None, None, None) keeps the axis as it is
+                cur = net.select_axis(sp, cur, ax, nm, P.atom(f"|{nm}|"))
             ax += 1
         elif isinstance(x, VOpaque) and x.tag.startswith("userint:"):
             cur = net.index_axis_int(sp, cur, ax, x.tag.split(":", 1)[1])
@@ -385,6 +388,16 @@ def tensor_index(it, base: VTensor, idx, node):
         else:
             raise Unmodelled(f"tensor index of type {type(x).__name__}")
     return VTensor(cur, base.dtype, cnts)
+
+
+def slicefield_atom(nm, field):
+    """0/1 unknown: the field of the caller's slice `nm` is None (1) or not (0)"""
+    return P.atom(f"isnone[{nm}.{field}]")
+
+
+def userslice_is_full(facts, nm) -> bool:
+    """the path has established that start, stop and step of the caller's slice are all None"""
+    return all(facts.eq(slicefield_atom(nm, f), ONE) for f in ("start", "stop", "step"))
 
 
 def gather_name(sp, idx: Dense) -> str:
